@@ -341,6 +341,25 @@ func (w *w2) judgeJoins() {
 			if s.tRet-lj.tRet > lj.session/2 {
 				excused = true // expiry may legitimately have started a new rebalance
 			}
+			// ... and so may the expiry of any member of the generation that had gone quiet
+			for _, m := range lj.members {
+				lastSeen := time.Duration(-1)
+				var sess time.Duration
+				for _, o := range w.answered("") {
+					if (o.reqMember == m || o.respMember == m) && o.ret < s.ret {
+						lastSeen = o.tRet
+						if o.kind == "join" && o.session > 0 {
+							sess = o.session
+						}
+					}
+				}
+				if sess == 0 {
+					sess = lj.session
+				}
+				if lastSeen < 0 || s.tRet-lastSeen > sess-1500*time.Millisecond {
+					excused = true
+				}
+			}
 			if !excused {
 				w.sim.Fail("C14", "sync-fails-after-leader-synced", "group %q generation %d: leader %q synced at step %d, then member %q's sync at step %d got code %d", s.group, s.reqGen, ls.reqMember, ls.ret, s.reqMember, s.ret, s.code)
 				return
